@@ -232,6 +232,61 @@ func extractScript(repo, out string) ([]string, error) {
 	if !found {
 		return nil, fmt.Errorf("script extractor: `switch o.code` not found in evalStack")
 	}
+	// evalStack: how do the six comparison clauses compare an int64 with a float64? Per clause the number
+	// of cmpIntFloat(…) calls (exact comparison) and of float64(…) conversions (rounding comparison).
+	hasCmpIntFloat := false
+	for _, d := range sf.Decls {
+		if fd, ok := d.(*ast.FuncDecl); ok && fd.Recv == nil && fd.Name.Name == "cmpIntFloat" {
+			hasCmpIntFloat = true
+		}
+	}
+	type cmpSite struct {
+		label      string
+		exact, f64 int
+	}
+	var cmpSites []cmpSite
+	for _, d := range sf.Decls {
+		fd, ok := d.(*ast.FuncDecl)
+		if !ok || fd.Name.Name != "evalStack" || fd.Recv != nil {
+			continue
+		}
+		ast.Inspect(fd.Body, func(n ast.Node) bool {
+			cc, ok := n.(*ast.CaseClause)
+			if !ok || len(cc.List) != 1 {
+				return true
+			}
+			x, ok := scrSelName(cc.List[0], "code")
+			if !ok {
+				return true
+			}
+			switch x {
+			case "eq", "neq", "lt", "gt", "lte", "gte":
+			default:
+				return true
+			}
+			site := cmpSite{label: x}
+			for _, st := range cc.Body {
+				ast.Inspect(st, func(m ast.Node) bool {
+					if ce, ok := m.(*ast.CallExpr); ok {
+						if id, ok := ce.Fun.(*ast.Ident); ok {
+							switch id.Name {
+							case "cmpIntFloat":
+								site.exact++
+							case "float64":
+								site.f64++
+							}
+						}
+					}
+					return true
+				})
+			}
+			cmpSites = append(cmpSites, site)
+			return false
+		})
+	}
+	if len(cmpSites) != 6 {
+		return nil, fmt.Errorf("script extractor: expected the six comparison clauses in evalStack, found %d", len(cmpSites))
+	}
 	// evalWithRoot: is a template that is exactly one path evaluated as an existence test?
 	//   if len(s.template) == 1 { _, bare = s.template[0].(Expr) }   and   if bare { match = sstack[0] != Nothing }
 	bareAssign, bareUse, sawEvalWithRoot := false, false, false
@@ -350,6 +405,15 @@ func extractScript(repo, out string) ([]string, error) {
 		b.WriteString(scrLeanStrList(c))
 	}
 	fmt.Fprintf(&b, "]\n\ndef evalHasDefault : Bool := %v\n\n", evalDefault)
+	fmt.Fprintf(&b, "/-- a function `cmpIntFloat` is declared in jp/script.go -/\ndef hasCmpIntFloat : Bool := %v\n\n", hasCmpIntFloat)
+	b.WriteString("/-- the comparison clauses of evalStack: (label, calls of cmpIntFloat, conversions float64(…)) -/\ndef cmpSites : List (String × Nat × Nat) := [")
+	for i, c := range cmpSites {
+		if i > 0 {
+			b.WriteString(", ")
+		}
+		fmt.Fprintf(&b, "(%s, %d, %d)", scrLeanStr(c.label), c.exact, c.f64)
+	}
+	b.WriteString("]\n\n")
 	fmt.Fprintf(&b, "/-- evalWithRoot has `if len(s.template) == 1 { _, bare = s.template[0].(Expr) }` and `if bare { match = sstack[0] != Nothing }` -/\ndef bareExistence : Bool := %v\n\n", bareAssign && bareUse)
 	b.WriteString("/-- exported builder functions of jp/equation.go and the operator variable they install -/\ndef builders : List (String × String) := [")
 	for i, e := range builders {
